@@ -262,6 +262,12 @@ static int ensure_cap(SFile* f, uint32_t need) {
     if (need <= f->cap) return 0;
     uint32_t ncap = need < 1024 ? 1024 : need + need / 2;
     ncap          = (ncap + 63u) & ~63u;
+    if (f->cap && f->off + f->cap == A->bump) { /* last region of the arena: grow in place, no copy, no waste */
+        if ((uint64_t)f->off + ncap > (uint64_t)ARENA_SIZE - sizeof(Arena)) return -1;
+        A->bump = f->off + ncap;
+        f->cap  = ncap;
+        return 0;
+    }
     if ((uint64_t)A->bump + ncap > (uint64_t)ARENA_SIZE - sizeof(Arena)) return -1;
     uint32_t noff = A->bump;
     A->bump += ncap;
